@@ -251,10 +251,11 @@ int LLVMFuzzerTestOneInput(const uint8_t *data, size_t size)
     for (i = 0; i < nk; i++) {
         int expected = -1;
         for (j = 0; j < n; j++) if (!strcmp(names[j], keys[i])) expected = j;
-        query(keys[i], strlen(keys[i]), expected, 1);
+        query(keys[i], strlen(keys[i]), expected, 0);   /* names may be C keywords here */
         free(keys[i]);
     }
     for (i = 0; i < n; i++) free(names[i]);
+    fflush(stdout);
     if (n_bad) { fprintf(stderr, "C25-HARNESS: lookup differs from the linear scan\n"); abort(); }
     return 0;
 }
